@@ -72,6 +72,21 @@ fn main() {
             // every check runs on a thread with the main thread's default stack size so depth results are reproducible
             let prop = a[2].clone();
             let tier = tier.to_string();
+            {
+                // a check whose process family stops consuming CPU is blocked inside the code under test
+                let (p, t) = (prop.clone(), tier.clone());
+                watch::stall_watchdog(std::time::Duration::from_secs(90), move || {
+                    let dir = acc::verif_dir();
+                    let _ = std::fs::create_dir_all(format!("{}/replays", dir));
+                    let path = format!("{}/replays/{}-stall.json", dir, p);
+                    let _ = std::fs::write(&path, serde_json::json!({"kind": "stall", "property": p, "tier": t, "class": "the check stalled",
+                        "message": "the check and all its helper processes stopped consuming CPU for 90 s: harness threads are blocked inside the code under test (deadlock, or a wait that nothing ends)"}).to_string());
+                    println!("VIOLATION property={} replay={}", p, path);
+                    println!("  the check stalled: for 90 s neither this process nor its helpers used any CPU - threads are blocked inside jsonpath-rust (a deadlock between locks of the code under test, or a wait that nothing ends)");
+                    // helper processes are left to the operating system (they are blocked); this process ends here
+                    std::process::exit(1);
+                });
+            }
             let h = std::thread::Builder::new()
                 .stack_size(64 << 20)
                 .spawn(move || match prop.as_str() {
